@@ -1,6 +1,287 @@
 /-
-C09 — placeholder while the lemma files are being written.
+C09 — Task status transitions follow the lifecycle; outputs are monotone; implied outputs.
+
+Statements only; proofs by reference to `SchedLemmasC09` (Part A: the per-task message step function
+`Msg.step`; Part B: `Sched.processMessage` acts on the addressed proxy exactly as `Msg.step`).
+
+Reading of the property text.  "changes along the lifecycle": the status moves *forward* in the order
+waiting → preparing → submitted → running → succeeded | failed (submit-failed from waiting / preparing /
+submitted, expired from waiting), stages may be skipped forward ("started before submitted" is an event
+order the property quantifies over), or returns to waiting from preparing / submitted / running for an
+automatic retry (`Msg.Allowed`).  The full statement is false on cylc-flow: `lifecycle_full` /
+`lifecycle_counterexample`; what holds is `lifecycle_partial`, for every input outside the explicit
+set `Msg.Deviant` (findings believed-reversal and final-not-terminal).
 -/
-import CylcModel.Msg
+import CylcModel.SchedLemmasC09b
 namespace CylcModel.C09
+open CylcModel.Sched CylcModel.Msg
+
+/-! ### the example task / graph of the non-vacuity examples -/
+
+def exT : TaskDefn :=
+  { name := "a",
+    insts := [(1, { pre := [], sui := [], children := [], nextParentless := none })],
+    firstParentless := some 1,
+    completion := CE.and (CE.var "succeeded") (CE.var "x"),
+    outputs := [⟨"submitted", "submitted"⟩, ⟨"started", "started"⟩, ⟨"succeeded", "succeeded"⟩,
+                ⟨"failed", "failed"⟩, ⟨"submit-failed", "submit-failed"⟩, ⟨"x", "xx"⟩],
+    execRetries := 1 }
+
+def exGraph : Graph :=
+  { icp := 1, fcp := 1, start := 1, runahead := 1, seqs := [[1]], stopPoint := some 1, tasks := [exT] }
+
+/-- a proxy of the example task in a given status with given outputs, first job -/
+def exP (st : Status) (done : List String) : PS :=
+  { x := { pt := 1, name := "a", status := st, submitNum := 1, done := done, runahead := false }, tr := false }
+
+theorem exT_std : StdOut (some exT) := by unfold StdOut; decide
+
+/-! ### outputs are monotone -/
+
+/-- **completed outputs are never un-completed** by a message — any flag, submit number, text and fuel;
+the proxy keeps its identity and submit number, and a transient object stays transient. -/
+theorem outputs_monotone (ot : Option TaskDefn) (fuel : Nat) (ps : PS) (flag : Flag) (sn : Nat) (msg : String) :
+    (∀ m, m ∈ ps.x.done → m ∈ (step ot fuel ps flag sn msg).1.x.done) ∧
+    (step ot fuel ps flag sn msg).1.x.submitNum = ps.x.submitNum ∧
+    (step ot fuel ps flag sn msg).1.x.pt = ps.x.pt ∧ (step ot fuel ps flag sn msg).1.x.name = ps.x.name :=
+  let h := step_frame ot fuel ps flag sn msg
+  ⟨h.done, h.sn, h.pt, h.name⟩
+
+/-- … and so by any sequence of deliveries (duplicates, stale and out-of-order messages, poll results) -/
+theorem outputs_monotone_deliver (ot : Option TaskDefn) (ps : PS) (ms : List Dlv) :
+    ∀ m, m ∈ ps.x.done → m ∈ (deliver ot ps ms).x.done := by
+  have : ∀ (ms : List Dlv) (q : PS), Frame q (deliver ot q ms) := by
+    intro ms; induction ms with
+    | nil => intro q; exact Frame.refl _
+    | cons m ms ih => intro q; exact Frame.trans (step_frame ot 4 q m.flag m.sn m.text) (ih _)
+  exact (this ms ps).done
+
+example : (step (some exT) 4 (exP .running ["submitted", "started"]) .received 1 "xx").1.x.done =
+    ["submitted", "started", "xx"] := by decide
+
+/-! ### implied outputs (and status / outputs consistency) -/
+
+/-- **whenever succeeded or failed is complete, submitted and started are complete too** — together with:
+a running / succeeded / failed task has submitted and started complete, a submitted task has submitted
+complete (`Msg.Good`).  Preserved by every message whatsoever, for tasks with the standard outputs. -/
+theorem implied_outputs (ot : Option TaskDefn) (hs : StdOut ot) (f : Nat) (ps : PS) (flag : Flag) (sn : Nat)
+    (msg : String) (hg : Good ps.x) : Good (step ot (f + 3) ps flag sn msg).1.x :=
+  good_step ot hs f ps flag sn msg hg
+
+/-- … hence by any sequence of deliveries, from any consistent proxy (a new proxy is consistent) -/
+theorem implied_outputs_deliver (ot : Option TaskDefn) (hs : StdOut ot) (ps : PS) (ms : List Dlv)
+    (hg : Good ps.x) : Good (deliver ot ps ms).x := by
+  have : ∀ (ms : List Dlv) (q : PS), Good q.x → Good (deliver ot q ms).x := by
+    intro ms; induction ms with
+    | nil => intro q hq; exact hq
+    | cons m ms ih => intro q hq; exact ih _ (good_step ot hs 1 q m.flag m.sn m.text hq)
+  exact this ms ps hg
+
+theorem good_new (x : Proxy) (h : x.status = .waiting ∨ x.status = .preparing) (hd : x.done = []) : Good x := by
+  unfold Good; rw [hd]; rcases h with h | h <;> simp [h]
+
+/-- succeeded arriving before started and submitted: the implied outputs are completed first -/
+example : (step (some exT) 4 (exP .preparing []) .received 1 "succeeded").1.x.status = .succeeded ∧
+    "submitted" ∈ (step (some exT) 4 (exP .preparing []) .received 1 "succeeded").1.x.done ∧
+    "started" ∈ (step (some exT) 4 (exP .preparing []) .received 1 "succeeded").1.x.done := by
+  obtain ⟨e, _, hst, _⟩ := sum_succeeded (some exT) exT_std 1 (exP .preparing []) .received 1 (by decide)
+  exact ⟨hst, (e "submitted").mpr (by simp), (e "started").mpr (by simp)⟩
+
+/-! ### lifecycle -/
+
+/-- the full statement of the property: every non-forced message moves a consistent proxy along the lifecycle -/
+def lifecycle_full : Prop :=
+  ∀ (ot : Option TaskDefn), StdOut ot → ∀ (ps : PS) (flag : Flag) (sn : Nat) (msg : String), Good ps.x →
+    Allowed ps.x.status (step ot 4 ps flag sn msg).1.x.status = true
+
+/-- cylc-flow believes poll results: a late `started` poll result takes a succeeded task back to running
+(finding believed-reversal) … -/
+theorem lifecycle_counterexample : ¬ lifecycle_full := by
+  intro h
+  have := h (some exT) exT_std (exP .succeeded ["submitted", "started", "succeeded"]) .polled 1 "started"
+    (by unfold Good; decide)
+  revert this; decide
+
+/-- … and a job message after submit-failed is accepted (finding final-not-terminal) -/
+theorem lifecycle_counterexample_received :
+    Allowed .submitFailed
+      (step (some exT) 4 (exP .submitFailed ["submit-failed"]) .received 1 "started").1.x.status = false := by
+  obtain ⟨_, ⟨s2, hs2, hb⟩, _⟩ :=
+    sum_started (some exT) exT_std 2 (exP .submitFailed ["submit-failed"]) .received 1 (by decide)
+  have h2 : s2 = .submitFailed := by
+    rcases hs2 with h | ⟨h, _⟩
+    · exact h
+    · exact absurd h (by decide)
+  subst h2
+  rcases hb with ⟨_, _, hr, _⟩ | ⟨_, _, hst⟩
+  · exact absurd hr (by decide)
+  · rw [hst]; decide
+
+/-- **lifecycle**: outside the by-design deviations `Msg.Deviant`, a message moves the status forward
+along the lifecycle or back to waiting for an automatic retry — and a return to waiting happens only on
+a failure event while a retry is left, advancing that retry counter by one. -/
+theorem lifecycle_partial (ot : Option TaskDefn) (hs : StdOut ot) (f : Nat) (ps : PS) (flag : Flag) (sn : Nat)
+    (msg : String) (hg : Good ps.x) (hdev : Deviant ot flag ps.x msg = false) :
+    Allowed ps.x.status (step ot (f + 3) ps flag sn msg).1.x.status = true ∧
+    ((step ot (f + 3) ps flag sn msg).1.x.status = .waiting → ps.x.status ≠ .waiting →
+      ((msg = "failed" ∧ ps.x.execTry < execMax ot ∧
+          (step ot (f + 3) ps flag sn msg).1.x.execTry = ps.x.execTry + 1) ∨
+       (msg = "submit-failed" ∧ ps.x.subTry < subMax ot ∧
+          (step ot (f + 3) ps flag sn msg).1.x.subTry = ps.x.subTry + 1))) :=
+  lifecycle_step ot hs f ps flag sn msg hg hdev
+
+/-- consecutive statuses of a trace respect the lifecycle -/
+def Lifecycle : List Status → Prop
+  | [] => True
+  | [_] => True
+  | a :: b :: rest => Allowed a b = true ∧ Lifecycle (b :: rest)
+
+/-- no delivery of the sequence is one of the by-design deviations (in the state it is delivered in) -/
+def NoDeviation (ot : Option TaskDefn) : PS → List Dlv → Prop
+  | _, [] => True
+  | ps, m :: ms => Deviant ot m.flag ps.x m.text = false ∧ NoDeviation ot (step ot 4 ps m.flag m.sn m.text).1 ms
+
+/-- **lifecycle over arbitrary delivery sequences** (any interleaving of duplicates, stale and
+out-of-order messages and poll results without a by-design deviation) -/
+theorem lifecycle_trace (ot : Option TaskDefn) (hs : StdOut ot) :
+    ∀ (ms : List Dlv) (ps : PS), Good ps.x → NoDeviation ot ps ms → Lifecycle (trace ot ps ms) := by
+  intro ms; induction ms with
+  | nil => intro ps _ _; exact trivial
+  | cons m ms ih =>
+    intro ps hg hnd
+    have h1 := (lifecycle_step ot hs 1 ps m.flag m.sn m.text hg hnd.1).1
+    have h2 := ih (step ot 4 ps m.flag m.sn m.text).1 (good_step ot hs 1 ps m.flag m.sn m.text hg) hnd.2
+    cases ms with
+    | nil => exact ⟨h1, trivial⟩
+    | cons m' ms' => exact ⟨h1, h2⟩
+
+/-- started before the submit result, a duplicate, a stale message of job 0, then the outcome -/
+example : trace (some exT) (exP .preparing [])
+    [⟨.received, 1, "started"⟩, ⟨.internal, 1, "submitted"⟩, ⟨.received, 1, "started"⟩,
+     ⟨.received, 0, "failed"⟩, ⟨.received, 1, "failed"⟩] =
+    [.preparing, .running, .running, .running, .running, .waiting] := by decide
+
+example : NoDeviation (some exT) (exP .preparing [])
+    [⟨.received, 1, "started"⟩, ⟨.internal, 1, "submitted"⟩, ⟨.received, 1, "failed"⟩] := by
+  unfold NoDeviation NoDeviation NoDeviation NoDeviation; decide
+
+/-! ### the scheduler-level lift: `Sched.processMessage` is `Msg.step` on the addressed proxy -/
+
+/-- **Simulation.**  For every instance graph in which no task instance is its own graph child, every state
+in which (p, n) has a live proxy or transient object `ps` not shadowed by an older transient object, and
+every message: after `Sched.processMessage` the proxy / transient object of (p, n) is exactly
+`Msg.step` of `ps`, the poll request is the same, and the shadowing condition is kept.  Spawning of
+children, suicide triggers, removal on completion, parentless spawning and DB history all happen around it. -/
+theorem processMessage_is_step (g : Graph) (hwf : noSelfChild g = true) (p : Int) (n : String) (fuel : Nat)
+    (s : State) (ps : PS) (flag : Flag) (sn : Nat) (msg : String) (h : Sim p n s ps) :
+    Sim p n (processMessage g fuel s p n flag sn msg).1 (step (g.task? n) fuel ps flag sn msg).1 ∧
+    (processMessage g fuel s p n flag sn msg).2 = (step (g.task? n) fuel ps flag sn msg).2 :=
+  pm_sim g hwf p n fuel s ps flag sn msg h
+
+theorem sim_of_get (s : State) (p : Int) (n : String) (x : Proxy) (h : s.get? p n = some x) (hg : s.ghosts = []) :
+    Sim p n s ⟨x, false⟩ := by
+  refine ⟨by unfold lookup; rw [h], ?_⟩
+  intro _ y hy; rw [hg] at hy; simp at hy
+
+theorem stdOut_of_graph (g : Graph) (hso : stdOutputs g = true) (n : String) (t : TaskDefn)
+    (ht : g.task? n = some t) : StdOut (g.task? n) := by
+  rw [ht]
+  have htm : t ∈ g.tasks := List.mem_of_find?_eq_some ht
+  unfold stdOutputs at hso
+  have := List.all_eq_true.mp hso t htm
+  simpa [StdOut] using this
+
+/-- **Lifecycle, outputs and consistency at the scheduler level**: a job message (submit result, received
+message, poll result) processed by `Sched.processMessage` in ANY consistent state (`GoodState`: every pooled
+proxy consistent and of a task of the graph, every DB record consistent or of a finished complete instance —
+every state reached in a run is one, `implied_outputs_run`): if (p, n) is still pooled afterwards it is
+`Msg.step` of the proxy before, so its outputs have only grown, it is consistent, and — unless the input is a
+by-design deviation — its status moved along the lifecycle. -/
+theorem sched_message (g : Graph) (hwf : noSelfChild g = true) (hso : stdOutputs g = true)
+    (s : State) (p : Int) (n : String) (x : Proxy) (hg : GoodState g s) (h : s.get? p n = some x)
+    (flag : Flag) (sn : Nat) (msg : String) (x' : Proxy)
+    (h' : (processMessage g 4 s p n flag sn msg).1.get? p n = some x') :
+    x' = (step (g.task? n) 4 ⟨x, false⟩ flag sn msg).1.x ∧
+    (∀ m, m ∈ x.done → m ∈ x'.done) ∧ x'.submitNum = x.submitNum ∧ Good x' ∧
+    (Deviant (g.task? n) flag x msg = false → Allowed x.status x'.status = true) := by
+  have heq := pm_pool g hwf s p n x x' hg h flag sn msg h'
+  have hxm : x ∈ s.pool := List.mem_of_find?_eq_some h
+  have hxk := get?_some_key h
+  obtain ⟨hgx, htx⟩ := hg.1 x hxm
+  have hst : StdOut (g.task? n) := stdOut_of_task g hso n (by rw [← hxk.2]; exact htx)
+  have hfr := step_frame (g.task? n) 4 ⟨x, false⟩ flag sn msg
+  refine ⟨heq, ?_⟩
+  rw [heq]
+  exact ⟨hfr.done, hfr.sn, good_step (g.task? n) hst 1 ⟨x, false⟩ flag sn msg hgx,
+    fun hd => (lifecycle_step (g.task? n) hst 1 ⟨x, false⟩ flag sn msg hgx hd).1⟩
+
+/-! ### invariants of every run of the scheduler model -/
+
+/-- **Every pooled proxy of every state of every run is consistent**: for every instance graph without
+self-children whose tasks have the standard outputs, every op list (main loops, submit results, job messages
+— any order, duplicated, stale — poll results): a running / succeeded / failed task has submitted and started
+complete, a submitted task has submitted complete, and **whenever succeeded or failed is complete, submitted
+and started are complete too**. -/
+theorem implied_outputs_run (g : Graph) (hwf : noSelfChild g = true) (hso : stdOutputs g = true) (ops : List XOp) :
+    ∀ s ∈ runX g ops, ∀ x ∈ s.pool, Good x :=
+  fun s hs x hx => ((good_runX g hwf hso ops s hs).2.1 x hx).1
+
+/-- **Lifecycle in every run, for the ops that deliver one message** (a submit result: internal flag; a poll
+result of the current job: polled flag): from every reached state, unless the input is a by-design
+deviation, the status of the addressed proxy moves along the lifecycle (and it stays consistent, with its
+outputs grown).  Received messages are processed in batches by the main loop, each message from a state
+that satisfies the same invariant (`sched_message` applies to each of them). -/
+theorem lifecycle_run (g : Graph) (hwf : noSelfChild g = true) (hso : stdOutputs g = true) (ops : List XOp) :
+    ∀ s ∈ runX g ops, ∀ (p : Int) (n : String) (x x' : Proxy) (flag : Flag) (sn : Nat) (msg : String),
+      s.get? p n = some x → Deviant (g.task? n) flag x msg = false →
+      (processMessage g 4 (clearOp s) p n flag sn msg).1.get? p n = some x' →
+      Allowed x.status x'.status = true := by
+  intro s hs p n x x' flag sn msg h hd h'
+  have hg : GoodState g (clearOp s) := good_eq g s _ rfl rfl (good_runX g hwf hso ops s hs).2
+  exact (sched_message g hwf hso (clearOp s) p n x hg h flag sn msg x' h').2.2.2.2 hd
+
+/-- `runX` extends `Sched.run`: op lists without poll results give the same states -/
+theorem runX_base (g : Graph) (ops : List Op) : runX g (ops.map XOp.base) = run g ops := by
+  unfold runX run
+  have : ∀ (ops : List Op) (acc : List State × State),
+      (List.foldl (fun (acc : List State × State) op => let s' := stepX g acc.2 op; (acc.1 ++ [s'], s')) acc
+        (ops.map XOp.base)) =
+      (List.foldl (fun (acc : List State × State) op => let s' := Sched.step g acc.2 op; (acc.1 ++ [s'], s')) acc ops) := by
+    intro ops; induction ops with
+    | nil => intro acc; rfl
+    | cons op ops ih => intro acc; simp only [List.map_cons, List.foldl_cons, stepX]; exact ih _
+  rw [this]
+
+/-! ### outputs are monotone in every run of the scheduler model -/
+
+/-- **Completed outputs are never un-completed in any run**: for every instance graph, every op list
+(main loops, submit results, job messages, poll results) and every state `s` reached, one more op leaves
+every output that is on record for any task instance on record — `recDone`: the outputs of the pooled
+proxy of the instance, or, when it is not in the pool, of its latest DB record (from which a respawn
+starts).  In particular the outputs of a proxy that stays in the pool only grow, and a proxy that is
+removed and respawned gets all its outputs back. -/
+theorem outputs_monotone_run (g : Graph) (ops : List XOp) :
+    ∀ s ∈ runX g ops, ∀ (op : XOp) (p : Int) (n : String) (m : String),
+      m ∈ recDone s p n → m ∈ recDone (stepX g s op) p n :=
+  fun s hs op p n m hm => (mono_stepX g s op (nodup_runX g ops s hs)).le p n m hm
+
+/-- the special case of a proxy that is pooled before and after the op -/
+theorem outputs_monotone_pooled (g : Graph) (ops : List XOp) (s : State) (hs : s ∈ runX g ops) (op : XOp)
+    (p : Int) (n : String) (x x' : Proxy) (h : s.get? p n = some x) (h' : (stepX g s op).get? p n = some x') :
+    ∀ m, m ∈ x.done → m ∈ x'.done := by
+  intro m hm
+  have := outputs_monotone_run g ops s hs op p n m (by unfold recDone; rw [h]; exact hm)
+  unfold recDone at this; rw [h'] at this; exact this
+
+/-- the example graph satisfies the hypotheses of the lift -/
+example : noSelfChild exGraph = true ∧ stdOutputs exGraph = true := by decide
+
+/-- a run of the scheduler model with a poll result: prepared, submitted, poll result `started` of job 1;
+the poll result of a job 0 that does not exist is dropped -/
+example : ((runX exGraph [.base .loop, .base (.subres 1 "a" true 1), .poll 1 "a" 0 "succeeded",
+      .poll 1 "a" 1 "started"]).map fun s => s.pool.map fun x => (x.status, x.done)) =
+    [[(.waiting, [])], [(.preparing, [])], [(.submitted, ["submitted"])], [(.submitted, ["submitted"])],
+     [(.running, ["submitted", "started"])]] := by
+  decide
+
 end CylcModel.C09
